@@ -17,3 +17,8 @@ claim("C05", "DESIGN.md 5 C05, A.2",
  "Seeded search over duplication / reordering / loss patterns of CON and NON requests with copies re-sent around 0, ACK_TIMEOUT and the 247 s lifetime boundary (+-1 ns / 1 ms) on a fake clock, message IDs incl. the endpoint's own outgoing IDs, three handler behaviours, concurrent client-role traffic, and copies delivered while the first is held inside the per-message-ID section (park point + reader-loop replacement), on the real udp/client.Conn + Session + UDPConn. Handler executions and the replies on the wire are judged against a MID -> (first seen, first reply) reference model at the end of each run. Evidence, not proof.",
  "Trusts synctest's fake clock, the harness codec and model; exactly-at-boundary copies are accepted either way; the boundary is probed only with instantaneous handlers; one peer address per run (per-peer separation of the cache is exercised by C10).",
  "deterministic simulation: seeded fault/time search with de-duplication reference model over handler log and wire replies")
+
+claim("C07", "DESIGN.md 5 C07",
+ "Seeded search over generated message sequences (every length-nibble class, token lengths 0-8, ordinary/response/signalling codes, optionally one oversize frame incl. 32-bit extended-length boundary values) x segmentations of the byte stream chosen by the tape (single bytes, cuts inside headers, many frames per read) x read-buffer sizes, against the real tcp.Client + tcp/client.Session + net.Conn over a simulated stream (plain and TLS shim). The handler log is compared with the sent sequence; for an oversize frame the body is withheld and the connection must already be closed. Evidence, not proof.",
+ "Trusts the harness's own RFC 8323 codec; frames in the grey zone between 'options+payload <= max' and 'whole frame <= max' are not generated; messages supplied in the same read as the oversize header may die with the connection (both outcomes accepted, run marked racy).",
+ "deterministic simulation: seeded segmentation/sequence search with exact-delivery oracle on the handler log")
